@@ -32,6 +32,9 @@ var _ Packet = (*FullIntraRequest)(nil)
 
 // Marshal encodes the FullIntraRequest
 func (p FullIntraRequest) Marshal() ([]byte, error) {
+	if p.MarshalSize() > maxPacketLength {
+		return nil, errPacketTooLong
+	}
 	rawPacket := make([]byte, firOffset+(len(p.FIR)*8))
 	binary.BigEndian.PutUint32(rawPacket, p.SenderSSRC)
 	binary.BigEndian.PutUint32(rawPacket[4:], p.MediaSSRC)
